@@ -128,28 +128,164 @@ def check(ctx):
                     ctx.violation("R-C16.2", f"pos-back:{mname}:{norm(S.unparse(n))}", "the scan position is moved backwards", file=lx.rel, function=f"CLexer.{mname}", line=n.lineno)
 
     # ---- R-C16.3 ------------------------------------------------------------------
+    from .. import e1
+    ex, g = e1.get()
     cg = CG.ClassCalls("c_parser", "CParser")
+    # (a) the declarator-name scan: its summary in the grammar model is a predicate, so it is judged on the call graph
     regions = spec_regions(cg)
-    if not regions:
-        raise AnalysisError("no speculative (mark/reset) region found in CParser: anchors moved")
-    ctx.info["speculative_regions"] = {k: sorted({c for c, _ in v}) for k, v in regions.items()}
-    for name, inside in sorted(regions.items()):
-        callees = {c for c, _ in inside}
+    if "_peek_declarator_name_info" not in regions:
+        raise AnalysisError("speculative region _peek_declarator_name_info not found: anchors moved")
+    for name in ("_peek_declarator_name_info",):
+        callees = {c for c, _ in regions[name]}
         reach = cg.reachable(callees)
-        # the region re-enters itself if its own method (or another method holding the same mark) is reachable from inside
-        reenter = name in reach
-        ctx.oblige("R-C16.3", f"region {name}", not reenter,
-                   sample={"rule": "R-C16.3", "region": name, "calls inside": sorted(callees), "reachable productions": len(reach), "verdict": "cannot re-enter itself" if not reenter else "RE-ENTERS ITSELF"})
-        if reenter:
-            # shortest call chain for the report
-            chain = _chain(cg, callees, name)
-            ctx.violation("R-C16.3", f"self-nesting:{name}", f"speculative region of {name} (mark ... reset) can re-enter itself via {' -> '.join(chain)}: when the speculation is discarded, the same tokens are parsed again at every nesting level (work multiplies per level)",
+        bad = sorted(reach & ({name, "_mark", "_try_parse_paren_type_name"} | set(ex.productions)))
+        ctx.oblige("R-C16.3", f"region {name}", not bad, sample={"rule": "R-C16.3", "region": name, "calls inside": sorted(callees), "verdict": "pure token scan" if not bad else f"RE-ENTERS {bad}"})
+        if bad:
+            chain = _chain(cg, callees, bad[0])
+            ctx.violation("R-C16.3", f"self-nesting:{name}", f"the look-ahead scan of {name} (mark ... reset) reaches {bad[0]} via {' -> '.join(chain)}: nested speculation, the same tokens are scanned again at every nesting level",
                           file=px.rel, function=f"CParser.{name}", line=cg.methods[name].lineno)
-    ctx.require_instances("R-C16.3", 2)
+    # (b) all other speculations, on the extracted automata: a discarded speculation that parsed a production and whose continuation
+    #     re-parses the same tokens on a path that can still succeed doubles the work; if the region can re-enter itself the doubling nests
+    nheavy = 0
+    for key in sorted(g.pa, key=str):
+        pa = g.pa[key]
+        for seg in pa.spec:
+            if not _heavy(pa, seg):
+                continue
+            nheavy += 1
+            helper = _helper_of(seg, key)
+            harmful, via = _harmful(g, key, seg, helper)
+            reenter = helper in cg.reachable(_calls_in_segment(pa, seg))
+            ok = not (harmful and reenter)
+            exit_id = seg["reset_stack"][-1] if seg["reset_stack"] else ("?", 0)
+            ctx.oblige("R-C16.3", f"{key[0]}: speculation {helper} discarded at line {exit_id[1]}", ok,
+                       sample={"rule": "R-C16.3", "production": key[0], "speculation": helper, "discarded at line": exit_id[1],
+                               "continuation can succeed": harmful, "region re-entrant": reenter, "verdict": "no multiplicative re-parse" if ok else "EXPONENTIAL RE-PARSE"})
+            if not ok:
+                ctx.violation("R-C16.3", f"reparse:{key[0]}:{helper}", f"{key[0]} discards a speculation of {helper} that has parsed {sorted(_calls_in_segment(pa, seg))} (reset at line {exit_id[1]}) and then parses the same tokens again on a path that can succeed ({via}); "
+                              f"the speculated production can contain {helper} again, so the work doubles at every nesting level", file=px.rel, function=f"CParser.{key[0]}", line=exit_id[1])
+    ctx.info["heavy_speculative_segments"] = nheavy
+    ctx.require_instances("R-C16.3", 3)
     ctx.info["explanation"] = ("ambiguity analysis (exponential degree) on the look-ahead-exact NFA of the master regex and of the directive patterns via strongly connected components of the squared "
                                "configuration graph; structural check of the token buffer discipline; call-graph analysis of every mark/reset region for self re-entry")
     ctx.assumptions += ["measured step counts and constants are not decided (run-time quantity)", "polynomial (quadratic) look-ahead scans are not claimed absent; see DESIGN.md findings D22"]
     ctx.trusted += ["re._parser", "Weideman et al. criterion for exponential ambiguity (EDA)"]
+
+
+def _calls_in_segment(pa, seg):
+    out = {ev[1] for ev in seg["erased"] if ev[0] == "call"}
+    if seg["src"] != seg["origin"]:
+        # the segment spans several edges: calls on any path origin -> src
+        fw = _reach(pa, seg["origin"], forward=True)
+        bw = _reach(pa, seg["src"], forward=False)
+        for s_, ev, d, _ in pa.edges:
+            if ev is not None and ev[0] == "c" and s_ in fw and d in bw:
+                out.add(ev[1][0])
+    return out
+
+
+def _reach(pa, node, forward):
+    seen = {node}
+    stack = [node]
+    idx = pa.out if forward else pa.inn
+    while stack:
+        x = stack.pop()
+        for i in idx.get(x, []):
+            y = pa.edges[i][2] if forward else pa.edges[i][0]
+            if y not in seen:
+                seen.add(y)
+                stack.append(y)
+    return seen
+
+
+def _heavy(pa, seg):
+    return bool(_calls_in_segment(pa, seg))
+
+
+def _helper_of(seg, key):
+    ms = seg.get("mark_stack")
+    if ms:
+        return ms[0][0] if ms[0][0] not in ("_mark",) else key[0]
+    rs = seg.get("reset_stack") or ()
+    return rs[0][0] if rs and rs[0][0] not in ("_reset",) else key[0]
+
+
+def _exit_id(seg):
+    rs = seg.get("reset_stack") or ()
+    if len(rs) >= 2:
+        return (rs[0][0], rs[-1][1])      # reset inside the helper: (helper, line of the reset inside it)
+    return ("<caller>", rs[-1][1] if rs else 0)
+
+
+def _harmful(g, key, seg, helper):
+    """Can the parse still succeed after this discarded speculation, other than by running the same speculation again
+    (which, on the same tokens, ends in the same way)?  Search from the jump target while no token is consumed."""
+    from collections import deque
+    la0 = g.pa[key].la[seg["dst"]] or (g.U.all, g.U.all)
+    start = (key, seg["dst"], (), la0[0], la0[1])
+    seen = {start}
+    dq = deque([start])
+    want = _exit_id(seg)
+    steps = 0
+    while dq:
+        k, x, stack, f1, f2 = dq.popleft()
+        steps += 1
+        if steps > 200000:
+            return True, "search limit"
+        pa = g.pa[k]
+        la = pa.la[x]
+        if la is not None:
+            f1, f2 = f1 & la[0], f2 & la[1]
+            if not f1 or not f2:
+                continue
+        # a re-run of the same speculation at the same position: continue only from its exits of the same kind
+        segs_here = [s2 for s2 in pa.spec if s2["origin"] == x and _helper_of(s2, k) == helper and _heavy(pa, s2)]
+        if segs_here:
+            if want[0] == "<caller>":
+                # the first run succeeded and was discarded by its caller: a second run succeeds too -> genuine re-parse
+                return True, f"the speculation succeeds again in {k[0]}"
+            for s2 in segs_here:
+                if _exit_id(s2) == want:
+                    nx = (k, s2["dst"], stack, f1, f2)
+                    if nx not in seen:
+                        seen.add(nx)
+                        dq.append(nx)
+            continue
+        if x in pa.finals:
+            if stack:
+                (rk, rn), rest = stack[-1], stack[:-1]
+                nx = (rk, rn, rest, f1, f2)
+                if nx not in seen:
+                    seen.add(nx)
+                    dq.append(nx)
+            else:
+                return True, f"{k[0]} returns without consuming"
+            continue
+        ok = g.feasible(k)
+        for i in pa.out.get(x, []):
+            if i not in ok:
+                continue
+            s_, ev, d, _ = pa.edges[i]
+            if ev is None:
+                nx = (k, d, stack, f1, f2)
+            elif ev[0] == "t":
+                if (set(ev[1]) & f1) and g.can_return_from(k, d):
+                    return True, f"{k[0]} consumes {sorted(set(ev[1]) & f1)[:3]} and can return"
+                continue
+            else:
+                ck = ev[1]
+                if ck not in g.pa or len(stack) > 8:
+                    continue
+                if not (set(ev[2]) & f1) or not (set(ev[3]) & f2):
+                    continue
+                # two-token feasibility of the callee under the inherited facts
+                if not any(len(q) == 0 or (q[0] in f1 and (len(q) == 1 or q[1] in f2)) for q in g.first2()[ck]):
+                    continue
+                nx = (ck, g.pa[ck].start, stack + ((k, d),), f1 & frozenset(ev[2]), f2 & frozenset(ev[3]))
+            if nx not in seen:
+                seen.add(nx)
+                dq.append(nx)
+    return False, ""
 
 
 def _chain(cg, starts, target):
